@@ -39,9 +39,9 @@ structure Reply where
 
 def statusOf (code : Int) : Nat := if code == codeInvalidRequest then 400 else 500
 
-/-- HTTP status of a single (non-batch) exchange: the first write decides. -/
-def singleStatus (o : HandleOut) : Nat :=
-  match o.resp with
+/-- HTTP status of a single (non-batch) exchange: the first write decides (nothing written: 200). -/
+def singleStatus (r : Option Resp) : Nat :=
+  match r with
   | some ⟨_, .error code⟩ => statusOf code
   | _ => 200
 
@@ -64,13 +64,19 @@ def BatchW.emit (b : BatchW) (r : Option Resp) (inv : Option String) : BatchW :=
 def BatchW.finish (b : BatchW) : List Tok :=
   if b.started then b.toks ++ [.rbrack] else b.toks
 
+/-- `notifWriter` (handler.go): a request without an id runs with a writer that discards, so whatever
+    `handle` emits for a notification — including the error object for an unknown method, bad params
+    or a panic — never reaches the reply (JSON-RPC 2.0 §4.1; the WebSocket path does the same). -/
+def httpWire (id : NId) (o : HandleOut) : Option Resp :=
+  if id == .nil then none else o.resp
+
 /-- One element of a batch: invalid id ↦ its own parse error (id null) and carry on. -/
 def batchElem (h : Handler) (b : BatchW) (r : RawReq) : BatchW :=
   match normalizeID r.id with
   | none => b.emit (some ⟨.nil, .error codeParseError⟩) none
   | some id =>
     let o := h.handle false ⟨id, r.method, r.params⟩
-    b.emit o.resp o.invoked
+    b.emit (httpWire id o) o.invoked
 
 def Handler.handleReader (h : Handler) (maxSize : Nat) (size : Nat) (body : BodyIn) : Reply :=
   if size > maxSize then
@@ -93,8 +99,8 @@ def Handler.handleReader (h : Handler) (maxSize : Nat) (size : Nat) (body : Body
       { status := 500, toks := [.obj ⟨.nil, .error codeParseError⟩], invoked := [] }
     | some id =>
       let o := h.handle false ⟨id, r.method, r.params⟩
-      { status := singleStatus o
-        toks := match o.resp with | some r => [.obj r] | none => []
+      { status := singleStatus (httpWire id o)
+        toks := match httpWire id o with | some r => [.obj r] | none => []
         invoked := match o.invoked with | some t => [t] | none => [] }
 
 /-- Token grammar of one JSON value whose leaves are response objects. -/
